@@ -22,7 +22,7 @@ func init() {
 				"field (Node/Expression/pointer-to-node/slices thereof/block parameters' expressions, incl. promoted fields and the unexported catch node's children) " +
 				"to the visitor from exactly one call site that is unconditional, nil-guarded or inside a range over the slice; (C20.nil) a child field that package jet " +
 				"itself believes nullable (compared with nil, or initialised from a nil argument/zero-valued local at a constructor call) is only visited under a " +
-				"`!= nil` guard and never dereferenced unguarded; (C20.term) no helper hands the node it was called for back to the visitor; (C20.walk) Walk starts at t.Root. (C20.cases, continued) the parser's marker nodes (end, else, content, catch) are excluded on every path on which a parsed text-or-action node is appended to a list. (C20.walk, continued) every return of Walk lies behind the visit of t.Root and nothing of package jet looks at the tree first. (C20.cases, continued) no function of utils/visitor.go other than that default arm can panic explicitly.",
+				"`!= nil` guard and never dereferenced unguarded; (C20.term) no helper hands the node it was called for back to the visitor; (C20.walk) Walk starts at t.Root. (C20.cases, continued) the parser's marker nodes (end, else, content, catch) are excluded on every path on which a parsed text-or-action node is appended to a list. (C20.walk, continued) every return of Walk lies behind the visit of t.Root and nothing of package jet looks at the tree first. (C20.cases, continued) no function of utils/visitor.go other than that default arm can panic explicitly. (C20.fields, continued) a child handed to VisitorContext.Visit (the dispatcher) instead of visitNode / Visitor.Visit is not counted as visited: the dispatcher descends into its children without showing the node to the visitor.",
 			NotDecided: "that the parser builds trees only from these constructors is itself checked (node composite literals outside PARSE are reported); nothing else of substance.",
 			Assumptions: []string{
 				"a visitor descends by calling VisitorContext.Visit on the node it was given (the property's premise)",
@@ -952,6 +952,11 @@ func (r *c20) collect(h *an.Fn, prefix string, guards []string, seen map[*an.Fn]
 				name == "(utils.Visitor).Visit" && len(call.Args) == 2,
 				name == "(utils.VisitorContext).Visit" && len(call.Args) == 1:
 				arg := call.Args[len(call.Args)-1]
+				if name == "(utils.VisitorContext).Visit" && bad == "" {
+					// the dispatcher descends into the node's children; the node itself is handed to the visitor by
+					// visitNode / Visitor.Visit only
+					bad = "handed to VisitorContext.Visit, which visits its children but never shows the node itself to the visitor"
+				}
 				if pth, ok := pathOf(arg); ok {
 					if o := outside(pth); o != "" && bad == "" {
 						bad = o
